@@ -5,6 +5,7 @@ use std::io::{self, BufRead, Write};
 use std::panic;
 
 mod agg;
+mod aggseq;
 
 fn main() {
    let suite = std::env::args().nth(1).expect("suite");
@@ -20,6 +21,7 @@ fn main() {
       let toks: Vec<&str> = line.split_whitespace().collect();
       let res = panic::catch_unwind(|| match suite.as_str() {
          "agg" => agg::run(&toks),
+         "aggseq" => aggseq::run(&toks),
          _ => panic!("unknown suite"),
       });
       match res {
